@@ -203,12 +203,23 @@ class ClassRef:
 
     def bases(self):
         out = []
+        self.incomplete = getattr(self, "incomplete", False)
         for b in self.node.bases:
             bname = ast.unparse(b)
+            if bname in ("object",):
+                continue
             ref = resolve_class_name(self.relpath, bname)
             if ref is not None:
                 out.append(ref)
+            else:
+                self.incomplete = True  # a base that is not repository code (or not found): lookups may miss
         return out
+
+    def any_incomplete(self):
+        try:
+            return any(getattr(c, "incomplete", False) for c in self.mro())
+        except Unsupported:
+            return True
 
     def mro(self):
         # C3 linearisation
@@ -271,26 +282,42 @@ MODULE_FILES = {
 
 
 def resolve_class_name(relpath, dotted):
+    """ClassRef for a class named in ``relpath`` (own definition, imported name, or module.attr)"""
+    from .ops import _MODULE_ALIASES, _import_source, _module_file
+
     parts = dotted.split(".")
     if len(parts) == 1:
         try:
             return ClassRef.get(relpath, parts[0])
         except extract.ExtractError:
-            # imported name: search known files
-            for f in set(MODULE_FILES.values()):
-                try:
-                    return ClassRef.get(f, parts[0])
-                except extract.ExtractError:
-                    continue
-            return None
-    mod = ".".join(parts[:-1])
-    f = MODULE_FILES.get(mod)
+            pass
+        src = _import_source(relpath, parts[0])
+        if src is not None and src[0] == "name":
+            try:
+                return ClassRef.get(src[1], src[2])
+            except extract.ExtractError:
+                return resolve_class_name(src[1], src[2]) if src[1] != relpath else None
+        return None
+    head, attr = parts[0], parts[-1]
+    f = None
+    if len(parts) == 2:
+        src = _import_source(relpath, head)
+        if src is not None and src[0] == "module":
+            f = src[1]
+        elif head in _MODULE_ALIASES:
+            f = _MODULE_ALIASES[head]
+    else:
+        f = _module_file(".".join(parts[:-1]))
+        if f is None and head in _MODULE_ALIASES and len(parts) == 3:
+            # e.g. uh.ifc.DisabledHash
+            sub = _MODULE_ALIASES.get(parts[1])
+            f = sub
     if f is None:
         return None
     try:
-        return ClassRef.get(f, parts[-1])
+        return ClassRef.get(f, attr)
     except extract.ExtractError:
-        return None
+        return resolve_class_name(f, attr)
 
 
 # ---------------------------------------------------------------------------------------------
@@ -398,7 +425,7 @@ class Run:
 class Explorer:
     """explores all paths of one contract; collects obligations"""
 
-    def __init__(self, contract, registry=None, max_paths=4000, prune_timeout_ms=1500):
+    def __init__(self, contract, registry=None, max_paths=4000, prune_timeout_ms=400):
         self.contract = contract
         self.registry = registry or {}
         self.queue = [[]]
@@ -416,12 +443,19 @@ class Explorer:
     def explore(self):
         from .interp import Interp
 
+        import time as _time
+
         n = 0
+        t0 = _time.time()
+        budget = getattr(self.contract, "time_budget", None) or 120
         while self.queue:
             prefix = self.queue.pop()
             n += 1
             if n > self.max_paths:
                 self.unsupported = f"path budget exceeded ({self.max_paths})"
+                break
+            if _time.time() - t0 > budget:
+                self.unsupported = f"exploration time budget exceeded ({budget}s, {n} paths)"
                 break
             run = Run(self, prefix)
             interp = Interp(run, self.contract, self.registry)
